@@ -193,6 +193,8 @@ class LSched:
 
 def run_one(sc, root, first, n, gran="line"):
     """One execution: thread `first` is pre-empted at its n-th event (n=None: never)."""
+    if getattr(sc, "faults", None):
+        raise HarnessError("engine L injects no faults; scenario %s asks for %r" % (sc.name, sc.faults))
     env.reset_execution()
     restore(root, sc.init_tree)
     env.set_root(root)
